@@ -188,7 +188,14 @@ impl TopicActor {
 
         // Post them to all subscriptions.
         let mut set = tokio::task::JoinSet::new();
+        #[cfg(deltio_verif)]
+        let verif_ordered =
+            crate::verif::fanout_order(self.subscriptions.values().collect::<Vec<_>>());
+        #[cfg(deltio_verif)]
+        let mut verif_iter = verif_ordered.into_iter();
         for subscription in self.subscriptions.values() {
+            #[cfg(deltio_verif)]
+            let subscription = verif_iter.next().unwrap_or(subscription);
             // Spawn a future to post messages to each subscription.
             let subscription = Arc::clone(subscription);
             set.spawn({
